@@ -1,6 +1,7 @@
 """C18 Standstill recovery re-broadcasts a bundle sufficient to catch up, at any time."""
 from .. import pool as P
-from . import c07
+from .. import votor as V
+from . import c05, c07
 
 INVS = ["BundleProvesFinalized", "FreshPoolCatchesUp", "FinalizedIff", "HighestIsFinalized"]
 
@@ -14,6 +15,10 @@ def run(ctx):
     s = P.scn(votes=votes, certs=[("skip", 3, "-")], blocks=[((1, "A"), (0, "G"))])
     P.run_model(ctx, "votes", [2, 2, 1], 0, 5, [s], INVS, P.rel_c18, constraint="Consistent",
                 sample=(300000 if ctx.tier == "quick" else 2000000), timeout=3000)
+    # ... and the voting component forwards the whole bundle in every Votor state (incl. after pruning)
+    V.run_model(ctx, "votor_handover", c05.HANDOVER, 7, 7 if ctx.tier == "quick" else 9,
+                relevant=lambda fp, fields: "Standstill" in fp,
+                sample=60000 if ctx.tier == "quick" else 600000)
     return ctx.finish(rule="recover_from_standstill is invoked in every reachable model state (self-loop "
                            "transition); each invocation with its bundle, receiver-side validation and "
                            "fresh-pool catch-up comparison is one case")
